@@ -227,20 +227,24 @@ theorem shouldReplace_generated (dummyFor builtins : List String) (t : SpaceName
       (if (topNames dummyFor t).contains n then true else !builtins.contains n) := by
   simp only [shouldReplace, replaceGlobal_generated]
 
-/-- module-level names of the source built by `_get_class_def`: references and cells -/
+/-- module-level names of the source built by `_get_class_def`: every member of the space -
+references, child spaces, parameters (dummy bindings, the last two since fix 77f6b99) and cells -/
 theorem topNames_generated (t : SpaceNames) (n : String) :
-    (topNames Generated.exportDummyFor t).contains n = (t.refs.contains n || t.cells.contains n) := by
-  simp [topNames, Generated.exportDummyFor, container]
+    (topNames Generated.exportDummyFor t).contains n = t.isMember n := by
+  simp only [topNames, Generated.exportDummyFor, container, SpaceNames.isMember, List.flatMap_cons,
+    List.flatMap_nil, List.append_nil, List.contains_eq_mem, List.mem_append]
+  simp only [String.reduceEq, ↓reduceIte]
+  by_cases h1 : n ∈ t.cells <;> by_cases h2 : n ∈ t.refs <;> by_cases h3 : n ∈ t.spaces <;>
+    by_cases h4 : n ∈ t.params <;> simp [h1, h2, h3, h4]
 
 /-- the decision table of `should_replace` against modelx's namespace-then-builtins rule -/
-theorem resolve_table (b r c s p : Bool)
-    (h : ¬ (b = true ∧ (r || c) = false ∧ (c || r || s || p) = true)) :
-    (if (if (r || c) = true then true else !b) = true then
-        (if (c || r || s || p) = true then Target.member else Target.unbound)
+theorem resolve_table (b mem : Bool) :
+    (if (if mem = true then true else !b) = true then
+        (if mem = true then Target.member else Target.unbound)
       else (if b = true then Target.builtin else Target.unbound)) =
-    (if (c || r || s || p) = true then Target.member
+    (if mem = true then Target.member
       else if b = true then Target.builtin else Target.unbound) := by
-  cases b <;> cases r <;> cases c <;> cases s <;> cases p <;> simp_all
+  cases b <;> cases mem <;> simp
 
 /-! ### `ref_value` with the extracted branch order and literal test -/
 
